@@ -3,7 +3,10 @@
 Usage:  python c13_driver.py  < config.json  > result.json      (PYTHONPATH must point at the twisted tree)
 
 config = {"reactor": "select|poll|epoll|asyncio", "clock": "real|ms", "timer": 0|seconds,
-          "producers": [[[kind, usec], ...], ...], "lat_unit_ms": int, "grace_ms": int}
+          "producers": [[[kind, usec], ...], ...], "lat_unit_ms": int, "grace_ms": int,
+          "cb_yield": N (every N-th callback gives up the GIL for a moment, so that producers run -- and enqueue --
+                         while the reactor is in the middle of running queued calls; 0 = never),
+          "switch_us": thread switch interval of the interpreter in microseconds (0 = default 5000)}
    kind 0: sleep usec microseconds (0 = no pause), then issue the call
    kind 1: wait until every call issued so far (by anybody) has run, sleep usec more (the reactor is now
            asleep in its event wait with nothing to do), then issue the call
@@ -54,6 +57,9 @@ def main():
     lat_unit = cfg.get("lat_unit_ms", 5000) / 1000.0
     grace = cfg.get("grace_ms", 15000) / 1000.0
     scripts = cfg["producers"]
+    cb_yield = int(cfg.get("cb_yield", 0))
+    if cfg.get("switch_us"):
+        sys.setswitchinterval(cfg["switch_us"] / 1e6)
     np_ = len(scripts)
     main_ident = threading.get_ident()
 
@@ -69,6 +75,8 @@ def main():
         t = time.monotonic()
         log.append((p, i, "R" if threading.get_ident() == main_ident else "T", idle, min(3, int((t - t0) / lat_unit))))
         ran_total[0] += 1
+        if cb_yield and ran_total[0] % cb_yield == 0:
+            time.sleep(0.00005 if ran_total[0] % (2 * cb_yield) else 0)     # the callback does a little blocking work
         if then is not None:
             then()
 
